@@ -2,6 +2,7 @@ package lint
 
 import (
 	"fmt"
+	"go/constant"
 	"go/token"
 	"go/types"
 	"sort"
@@ -24,17 +25,29 @@ type txnClosure struct {
 
 func (m *Model) txnClosures() []txnClosure {
 	var out []txnClosure
+	fw := m.runnerForwarders()
 	for _, fn := range m.Funcs {
 		m.eachCall(fn, func(c ssa.CallInstruction) {
 			callee := c.Common().StaticCallee()
-			if callee == nil || (callee != m.A.TxnRunner && callee != m.A.Allocator) {
+			if callee == nil {
 				return
 			}
-			kind := "runner"
-			if callee == m.A.Allocator {
+			kind := ""
+			switch {
+			case callee == m.A.TxnRunner:
+				kind = "runner"
+			case callee == m.A.Allocator:
 				kind = "alloc"
+			default:
+				kind = fw[callee].kind
 			}
-			for _, arg := range c.Common().Args {
+			if kind == "" {
+				return
+			}
+			for i, arg := range c.Common().Args {
+				if f, isFw := fw[callee]; isFw && i != f.param {
+					continue
+				}
 				for _, t := range m.funcTargets(arg) {
 					if m.inPkg(t) {
 						out = append(out, txnClosure{t, kind, fn, c})
@@ -43,6 +56,62 @@ func (m *Model) txnClosures() []txnClosure {
 			}
 		})
 	}
+	return out
+}
+
+type runnerForwarder struct {
+	kind  string
+	param int // index (in the call's argument list) of the function that is passed on
+}
+
+// runnerForwarders: thin wrappers that hand their function-typed parameter, unchanged, to the
+// transaction runner or the CAS allocator (`func (c *Collection) inTransaction(fn) error { return
+// c.bucket.inTransaction(fn) }`): a closure passed to one of them is a transaction closure.
+func (m *Model) runnerForwarders() map[*ssa.Function]runnerForwarder {
+	if m.fwCache != nil {
+		return m.fwCache
+	}
+	out := map[*ssa.Function]runnerForwarder{}
+	for round := 0; round < 2; round++ {
+		for _, fn := range m.Funcs {
+			if fn.Parent() != nil || fn == m.A.TxnRunner || fn == m.A.Allocator {
+				continue
+			}
+			m.eachCall(fn, func(c ssa.CallInstruction) {
+				callee := c.Common().StaticCallee()
+				if callee == nil {
+					return
+				}
+				kind := ""
+				switch {
+				case callee == m.A.TxnRunner:
+					kind = "runner"
+				case callee == m.A.Allocator:
+					kind = "alloc"
+				default:
+					kind = out[callee].kind
+				}
+				if kind == "" {
+					return
+				}
+				for _, arg := range c.Common().Args {
+					p, ok := arg.(*ssa.Parameter)
+					if !ok || p.Parent() != fn {
+						continue
+					}
+					if _, isFn := p.Type().Underlying().(*types.Signature); !isFn {
+						continue
+					}
+					for i, q := range fn.Params {
+						if q == p {
+							out[fn] = runnerForwarder{kind, i}
+						}
+					}
+				}
+			})
+		}
+	}
+	m.fwCache = out
 	return out
 }
 
@@ -524,7 +593,7 @@ func (m *Model) ruleEVT1(r *Results) {
 			// find the txn runner / allocator call in this function whose error gates the post
 			var txnCall ssa.CallInstruction
 			m.eachCall(fn, func(c2 ssa.CallInstruction) {
-				if f := c2.Common().StaticCallee(); f != nil && (f == a.TxnRunner || f == a.Allocator) {
+				if f := c2.Common().StaticCallee(); f != nil && (f == a.TxnRunner || f == a.Allocator || m.runnerForwarders()[f].kind != "") {
 					txnCall = c2
 				}
 			})
@@ -933,20 +1002,88 @@ func (m *Model) ruleQUEUE(r *Results) {
 			})
 			tested := false
 			if deq != nil {
-				for _, ct := range controllingConds(pull[0], deq.Block()) {
-					if inCycle(ct.If.Block()) {
-						continue // the wait loop's own condition does not protect the dequeue after it
-					}
-					cd := condOf(ct.If)
-					for _, o := range []ssa.Value{cd.X, cd.Y} {
-						if o == nil {
-							continue
-						}
-						if m.readsFieldValue(o, closedField, 0) {
-							tested = true
+				// the value close() stores into the state field, and the edges on which a test of
+				// that field (direct, or through a predicate helper) finds the queue NOT closed
+				var closedVal *ssa.Const
+				for _, b := range cls[0].Blocks {
+					for _, in := range b.Instrs {
+						if st, ok := in.(*ssa.Store); ok {
+							if fa, ok := st.Addr.(*ssa.FieldAddr); ok && fieldOf(fa) == closedField {
+								closedVal, _ = st.Val.(*ssa.Const)
+							}
 						}
 					}
 				}
+				// closedWhen: v is a boolean that is true (result=true) / false exactly when the field holds the closed value
+				var closedWhen func(v ssa.Value, depth int) (bool, bool)
+				closedWhen = func(v ssa.Value, depth int) (bool, bool) {
+					v = stripConv(v)
+					if depth > 2 || closedVal == nil {
+						return false, false
+					}
+					switch x := v.(type) {
+					case *ssa.UnOp:
+						if x.Op == token.NOT {
+							w, ok := closedWhen(x.X, depth)
+							return !w, ok
+						}
+						if _, g, ok := fieldLoad(x); ok && g == closedField && closedVal.Value != nil && closedVal.Value.Kind() == constant.Bool {
+							return constant.BoolVal(closedVal.Value), true
+						}
+					case *ssa.BinOp:
+						if x.Op != token.EQL && x.Op != token.NEQ {
+							return false, false
+						}
+						var other ssa.Value
+						if _, g, ok := fieldLoad(stripConv(x.X)); ok && g == closedField {
+							other = x.Y
+						} else if _, g, ok := fieldLoad(stripConv(x.Y)); ok && g == closedField {
+							other = x.X
+						}
+						oc, isC := other.(*ssa.Const)
+						if other == nil || !isC {
+							return false, false
+						}
+						same := oc.Value == nil && closedVal.Value == nil || oc.Value != nil && closedVal.Value != nil && constant.Compare(oc.Value, token.EQL, closedVal.Value)
+						return same == (x.Op == token.EQL), true
+					case *ssa.Call:
+						callee := x.Common().StaticCallee()
+						if callee == nil || !m.inPkg(callee) {
+							return false, false
+						}
+						rets := returnsOf(callee)
+						if len(rets) != 1 || len(rets[0].Results) != 1 {
+							return false, false
+						}
+						return closedWhen(rets[0].Results[0], depth+1)
+					}
+					return false, false
+				}
+				c := newCut()
+				nTests := 0
+				for _, iff := range allIfs(pull[0]) {
+					w, ok := closedWhen(iff.Cond, 0)
+					if !ok {
+						continue
+					}
+					nTests++
+					// cut the edge taken when the queue is not closed
+					if w {
+						c.cutEdge(iff.Block(), iff.Block().Succs[1])
+					} else {
+						c.cutEdge(iff.Block(), iff.Block().Succs[0])
+					}
+				}
+				// without passing a "not closed" edge, the dequeue is reachable neither from the entry
+				// nor from the point where a Wait returns (the state may have changed while waiting)
+				tested = nTests > 0 && !entryReach(pull[0], c)[deq.Block().Index]
+				m.eachCall(pull[0], func(cw ssa.CallInstruction) {
+					if f := cw.Common().StaticCallee(); f != nil && f.Name() == "Wait" {
+						if cw.Block() == deq.Block() && indexIn(cw.Block(), cw) < indexIn(deq.Block(), deq) || reachableFromSuccs(cw.Block(), c)[deq.Block().Index] {
+							tested = false
+						}
+					}
+				})
 			}
 			r.check(deq != nil && tested, rule, "closed queue yields nothing", m.pos(pull[0].Pos()), "pull dequeues only after testing the state that close() sets", "after its wait loop, pull removes an element without testing the state that close() sets: a queue that was closed with events still queued keeps handing them out, and the feed callback keeps being invoked after the feed was ended")
 		}
@@ -1004,13 +1141,14 @@ func (m *Model) ruleONETXN(r *Results) {
 		return
 	}
 	memo := map[*ssa.Function]int{}
+	fw := m.runnerForwarders()
 	for _, fn := range m.Funcs {
-		if fn.Parent() != nil || fn == a.TxnRunner || m.onTxnChain(fn) {
+		if fn.Parent() != nil || fn == a.TxnRunner || m.onTxnChain(fn) || fw[fn].kind != "" {
 			continue
 		}
 		var direct []ssa.CallInstruction
 		m.eachCall(fn, func(c ssa.CallInstruction) {
-			if f := c.Common().StaticCallee(); f != nil && (f == a.TxnRunner || (f == a.Allocator && fn != a.Allocator)) {
+			if f := c.Common().StaticCallee(); f != nil && (f == a.TxnRunner || (f == a.Allocator && fn != a.Allocator) || fw[f].kind != "") {
 				direct = append(direct, c)
 			}
 		})
@@ -1039,7 +1177,7 @@ func (m *Model) ruleONETXN(r *Results) {
 		visit = func(f *ssa.Function) {
 			m.eachCall(f, func(c ssa.CallInstruction) {
 				callee := c.Common().StaticCallee()
-				if callee == nil || callee == a.TxnRunner || callee == a.Allocator {
+				if callee == nil || callee == a.TxnRunner || callee == a.Allocator || fw[callee].kind != "" {
 					return
 				}
 				if _, isGo := c.(*ssa.Go); isGo {
